@@ -28,6 +28,8 @@ except ImportError:
 
 
 class YowNoiseLayer(YowLayer):
+    MAX_SEGMENT_SIZE = 1 << 24   # segment lengths are 3 bytes on the wire
+    TAG_SIZE = 16                # AES-GCM authentication tag appended to every encrypted segment
     DEFAULT_PUSHNAME = "yowsup"
     HEADER = b'WA\x04\x00'
     EDGE_HEADER = b'ED\x00\x01'
@@ -161,6 +163,10 @@ class YowNoiseLayer(YowLayer):
         :rtype:
         """
         data = bytes(data) if type(data) is not bytes else data
+        if len(data) + self.TAG_SIZE >= self.MAX_SEGMENT_SIZE:
+            # the segments layer cannot carry it (24 bit length); refuse it here, encrypting it first would
+            # consume a send nonce for a frame that never reaches the wire and desynchronise the peer
+            raise ValueError("data too large to send; length=%d" % len(data))
         self._wa_noiseprotocol.send(data)
 
     def _flush_incoming_buffer(self):
